@@ -54,6 +54,7 @@ PointMass == Done => \A d \in 1..D :
         (\A i \in 1..Len(S) : S[i][d] = S[1][d]) => out.fit[d].trip = {<<Q(S[1][d]), Q(S[1][d]), Q(S[1][d])>>}
 \* scaling all weights by a constant changes nothing (normalised or raw weights)
 ScaleFree == Done => \A d \in 1..D : Triples(Col(S, d), [i \in 1..Len(W) |-> 3 * W[i]]) = out.fit[d].trip
+OrderReductionSound == Done => \A d \in 1..D : TriplesAll(Col(S, d), W) = out.fit[d].trip
 FitsInv == Done => \A t \in AllTrips : Fits(t[1]) /\ Fits(t[2]) /\ Fits(t[3])
 \* deliberately false (non-vacuity): the median is NOT always one of the samples
 MedianIsASample == Done => \A d \in 1..D : \A t \in out.fit[d].trip : \E i \in 1..Len(S) : t[2] = Q(S[i][d])
